@@ -24,6 +24,11 @@ NA = {
 }
 
 CHECKS = {
+ "C04": dict(
+  engine="c04_wfaults", category="fault_enumeration", design_ref="DESIGN.md §5.2",
+  technique="deterministic simulation with fault injection: per sampled solver configuration, exhaustive enumeration of inner linear-solve failure points (iteration index x site) with reference-model oracles on every returned result",
+  text="For every sampled configuration (method x formulation x back-end x L1/mobility mode x Anderson x weights x grid x masses x tolerances) all fault points of the stated quantifier are visited: one run per inner-solve index k=1..n-1 and site (linear_solve entry, back-end solve, set-up), exception types rotating. Each returned result is checked for mass balance against an independent divergence model (tolerance from the measured linear residual), distance = cost of the returned flux, auxiliary outputs, status (converged only if criteria met and no inner failure), last-valid-iterate equality with the truncated fault-free run, and a bound on the number of solves. Complete over fault points within a configuration; configurations are sampled.",
+  note="Trusted: the library's quadrature table for the RT0 mode (exactness is C15's subject), numpy/scipy/pyamg; seam names linear_solve, setup_*_solver, linear_solver, _solve and module attributes time/tracemalloc of darsia.measure.wasserstein; a 'failure' is an Exception (BaseExceptions escape the handler by design and are only counted)."),
  "C03": dict(
   engine="c03_geometry", category="exploration", design_ref="DESIGN.md §5.1",
   technique="deterministic simulation: seeded interleaving of client programs on shared caching Geometry objects, injected resize failures and environment perturbations, per-step fresh-clone and reference-model oracles",
